@@ -3,6 +3,10 @@
 // {x,y,z}, one scripted pass/fail outcome per listed host) on the real
 // healthcheck.NewFilter with a scripted Checker, compared after every round
 // with a reference model that is the literal predicate of the statement.
+// A second search gives slow check outcomes (timeouts, late answers) under
+// testing/synctest; a third one (monitor.go) runs the same rounds through a
+// real healthcheck.Monitor's timer loop in virtual time and applies the same
+// oracle to Monitor.Resolve.
 package main
 
 import (
@@ -133,6 +137,8 @@ type sys struct {
 	m             map[string]*hostModel
 	run           *evid.Run
 	timeouts      bool // outcome alphabet also has t (timed out) and L (answers OK after the deadline)
+	mon           *monDriver // non-nil: the rounds are run by a real Monitor's timer loop (see monitor.go)
+	where         string     // fingerprint prefix naming the observation point ("" = Filter.Run)
 }
 
 func newTimeoutSys(run *evid.Run, hosts []string, fails, passes int) *sys {
@@ -162,11 +168,18 @@ func newSys(run *evid.Run, hosts []string, fails, passes int) *sys {
 	return s
 }
 
-func (s *sys) Close() {}
+func (s *sys) Close() {
+	if s.mon != nil {
+		s.mon.close()
+	}
+}
 
 // Ops: every subset of the hosts as the list of the round (including the empty
 // list) x every pass(+)/fail(-) outcome per listed host; fewest hosts first.
 func (s *sys) Ops() []string {
+	if s.mon != nil && !s.mon.started {
+		return s.initOps()
+	}
 	n := len(s.hosts)
 	var masks []int
 	for m := 0; m < 1<<n; m++ {
@@ -255,8 +268,17 @@ func parseOp(op string) (list []string, out map[string]bool, slow map[string]byt
 }
 
 func (s *sys) Apply(op string) error {
-	list, out, slow, err := parseOp(op)
-	if err != nil {
+	isInit := strings.HasPrefix(op, "init:")
+	var list []string
+	var out map[string]bool
+	var slow map[string]byte
+	var err error
+	if isInit {
+		if s.mon == nil || s.mon.started {
+			return fmt.Errorf("op %q outside the start of a monitor history", op)
+		}
+		list, out, slow = strings.Fields(strings.TrimPrefix(op, "init:")), map[string]bool{}, map[string]byte{}
+	} else if list, out, slow, err = parseOp(op); err != nil {
 		return err
 	}
 	id := s.name + "|" + s.modelKey() + "|" + op
@@ -297,7 +319,17 @@ func (s *sys) Apply(op string) error {
 	// 2. the real filter runs the round.
 	s.chk.round(out, slow)
 	var got stringset.Set
-	if s.timeouts {
+	if s.mon != nil {
+		// the real Monitor runs the round from its timer loop (virtual time);
+		// got is what Monitor.Resolve reports once the round has been published.
+		// The initial op constructs the Monitor on the given list (NewMonitor
+		// resolves it once and publishes it without a filter round: to the model
+		// a round in which no host was checked).
+		if got, err = s.mon.step(s, isInit, list); err != nil {
+			return err
+		}
+		events.record("monitor_round_list_size_"+fmt.Sprint(min(len(list), 2)), id)
+	} else if s.timeouts {
 		// virtual time: the round, its timeout and every late answer happen
 		// inside one bubble, which ends only when all its goroutines are gone
 		synctest.Test(e1q.T(), func(*testing.T) {
@@ -344,7 +376,7 @@ func (s *sys) Apply(op string) error {
 	// 4. oracle: Run result == the set the statement describes.
 	for a := range got {
 		if !inList[a] {
-			return bfs.Failf("Run result contains a host that is not in the list", "%s op %q: result %v", s.name, op, sorted(got))
+			return bfs.Failf(s.where+"Run result contains a host that is not in the list", "%s op %q: result %v", s.name, op, sorted(got))
 		}
 	}
 	if len(list) == 1 {
@@ -352,7 +384,7 @@ func (s *sys) Apply(op string) error {
 			events.record("single_host_override", id)
 		}
 		if !got.Has(list[0]) {
-			return bfs.Failf("single-host list not reported healthy", "%s op %q: result %v", s.name, op, sorted(got))
+			return bfs.Failf(s.where+"single-host list not reported healthy", "%s op %q: result %v", s.name, op, sorted(got))
 		}
 	} else {
 		for _, h := range list {
@@ -360,9 +392,9 @@ func (s *sys) Apply(op string) error {
 			if got.Has(h) == hm.healthy {
 				continue
 			}
-			return bfs.Failf(s.fingerprint(hm, got.Has(h)),
+			return bfs.Failf(s.where+s.fingerprint(hm, got.Has(h)),
 				"%s op %q: host %s reported healthy=%v, statement says healthy=%v (checks since it appeared: %s); result %v; filter state %s",
-				s.name, op, h, got.Has(h), hm.healthy, outcomes(hm.checks), sorted(got), healthcheck.VerifFilterDump(s.f))
+				s.name, op, h, got.Has(h), hm.healthy, outcomes(hm.checks), sorted(got), s.filterDump())
 		}
 	}
 	if s.nontrivial() {
@@ -376,6 +408,10 @@ func (s *sys) fingerprint(hm *hostModel, gotHealthy bool) string {
 	case gotHealthy && hm.flipped:
 		// decided by the latest Fails checks alone, however the host got here
 		return "host still reported healthy after its last Fails checks failed"
+	case hm.rejoin == "sync" && s.mon != nil:
+		return "host that left and rejoined is not treated as a new healthy host (a list of 0 or >=2 hosts was resolved during its absence)"
+	case hm.rejoin == "single" && s.mon != nil:
+		return "host that left and rejoined is not treated as a new healthy host (only single-host lists were resolved during its absence)"
 	case hm.rejoin == "sync":
 		return "host that left and rejoined is not treated as a new healthy host (a list of 0 or >=2 hosts was filtered during its absence)"
 	case hm.rejoin == "single":
@@ -459,7 +495,18 @@ func (s *sys) modelKey() string {
 // Key = model state + the implementation's internal state (never coarser than
 // what Run can observe later).
 func (s *sys) Key() string {
-	return s.modelKey() + "#" + healthcheck.VerifFilterDump(s.f)
+	if s.mon != nil {
+		// + what the Monitor currently publishes (it persists between rounds)
+		return s.modelKey() + "#" + s.filterDump() + "#" + s.mon.published()
+	}
+	return s.modelKey() + "#" + s.filterDump()
+}
+
+func (s *sys) filterDump() string {
+	if s.f == nil {
+		return "(no filter yet)"
+	}
+	return healthcheck.VerifFilterDump(s.f)
 }
 
 // ---------------------------------------------------------------- main
@@ -468,12 +515,12 @@ func main() { e1q.Main(func(*testing.T) { realMain() }) }
 
 func realMain() {
 	run := evid.New("C23", "model_checking")
-	run.Rule = "E3: per (Fails,Passes) configuration, BFS over all histories of filter rounds on a real healthcheck.NewFilter with a scripted Checker; one round = host list (any subset of the hosts, hosts leave and rejoin, including the empty and single-host lists) x pass/fail per listed host; states deduplicated on model state + internal filter state (membership, healthy set, trend counters); after every round Run's result is compared with the literal predicate of the statement. distinct = distinct (configuration, model state) pairs in which some host is unhealthy, absent after having been listed, or has rejoined."
+	run.Rule = "E3: per (Fails,Passes) configuration, BFS over all histories of health-check rounds; one round = host list (any subset of the hosts, hosts leave and rejoin, including the empty and single-host lists) x pass/fail per listed host; after every round the reported set is compared with the literal predicate of the statement. Three searches: (1) Filter: rounds are Filter.Run calls on a real healthcheck.NewFilter with a scripted Checker, states deduplicated on model state + internal filter state (membership, healthy set, trend counters); (2) timeouts: same with slow check outcomes, each round in a synctest bubble; (3) Monitor: a real healthcheck.NewMonitor (real NewFilter, scripted hostlist.List and Checker) lives in one synctest bubble per history, the first op is the list it is constructed on (any subset), every further op scripts the list and the outcomes and advances virtual time by one Interval so that the Monitor's own time.After loop resolves, filters and publishes; observed is Monitor.Resolve after construction and after every round; states deduplicated on model state + filter state + published set. distinct = distinct (search, configuration, model state) triples in which some host is unhealthy, absent after having been listed, or has rejoined."
 	run.Assume("small-scope: hosts {x,y,z} (thorough also a 2-host universe), Fails/Passes in 1..3")
 	run.Assume("a check outcome is pass, fail, t (the Checker honours the context and returns its error when the 1h Timeout expires) or L (the Checker ignores the context and answers OK after 2x Timeout); t and L are failed checks; the slow outcomes are explored in a separate 2-host search in which every round runs in a testing/synctest bubble (virtual time; the bubble ends when the late answer has been delivered)")
-	run.Assume("the statement does not say in which rounds a listed host is checked; the model applies exactly the checks the filter performed (none in single-host rounds)")
+	run.Assume("the statement does not say in which rounds a listed host is checked; the model applies exactly the checks the filter performed (none in single-host rounds, none for the list a Monitor is constructed on)")
 	run.Assume("Filter.Run's per-host goroutines update disjoint hosts under one mutex, so a round's result does not depend on their order (not enumerated here)")
-	run.Assume("Monitor (time.After loop publishing Filter.Run's result unchanged) is not driven; the property is observed at Filter.Run")
+	run.Assume("Monitor search: 2 hosts x up to 5 rounds and 3 hosts x up to 3 rounds after construction (thorough 9 / 5), checks answer immediately (pass/fail only), Interval 1 virtual minute, Monitor.Resolve is read half an Interval after every tick; the Monitor resolving its list exactly once per Interval (and once in NewMonitor) is a harness assumption (harness error otherwise); Monitor.Stop is only used for teardown")
 
 	type universe struct {
 		hosts []string
@@ -483,7 +530,7 @@ func realMain() {
 	budget := 50 * time.Second
 	if run.Thorough() {
 		us = []universe{{[]string{"x", "y"}, 10}, {[]string{"x", "y", "z"}, 6}}
-		budget = 13 * time.Minute
+		budget = 11 * time.Minute
 	}
 	deadline := time.Now().Add(budget)
 	for _, u := range us {
@@ -511,6 +558,37 @@ func realMain() {
 				return newTimeoutSys(run, []string{"x", "y"}, fails, passes), nil
 			}})
 			fmt.Printf("  %s: states=%d transitions=%d reached_depth=%d fixpoint=%v completed=%v\n", name, res.States, res.Transitions, res.MaxDepth, res.Fixpoint, res.Completed)
+		}
+	}
+	// monitor search: the rounds are run by a real Monitor's timer loop
+	type muniverse struct {
+		hosts  []string
+		rounds int
+	}
+	mus := []muniverse{{[]string{"x", "y"}, 5}, {[]string{"x", "y", "z"}, 3}}
+	if run.Thorough() {
+		mus = []muniverse{{[]string{"x", "y"}, 9}, {[]string{"x", "y", "z"}, 5}}
+	}
+	// own budget, so that a slow machine that used up the budget above still
+	// runs this search
+	mbudget := 40 * time.Second
+	if run.Thorough() {
+		mbudget = 4 * time.Minute
+	}
+	if d := time.Now().Add(mbudget); d.After(deadline) {
+		deadline = d
+	}
+	for _, u := range mus {
+		for fails := 1; fails <= 3; fails++ {
+			for passes := 1; passes <= 3; passes++ {
+				u, fails, passes := u, fails, passes
+				name := fmt.Sprintf("monitor hosts=%d Fails=%d Passes=%d rounds=%d", len(u.hosts), fails, passes, u.rounds)
+				t0 := time.Now()
+				res := rep.BFS(run, name, bfs.Config{MaxDepth: 1 + u.rounds, Deadline: deadline, New: func() (bfs.System, error) {
+					return newMonSys(run, u.hosts, fails, passes), nil
+				}})
+				fmt.Printf("  %s: states=%d transitions=%d reached_depth=%d fixpoint=%v completed=%v (%.1fs)\n", name, res.States, res.Transitions, res.MaxDepth, res.Fixpoint, res.Completed, time.Since(t0).Seconds())
+			}
 		}
 	}
 	events.mu.Lock()
